@@ -567,12 +567,12 @@ def _texts(rng, n, prop="C15"):
     out += fixed[: max(6, n // 5)]
     while len(out) < n:
         r = rng.random()
-        if r < 0.5:
+        if r < 0.42:
             t = workload.structured_text(rng)
-        elif r < 0.8:
+        elif r < 0.66:
             t = workload.gen_text(rng, 4 if prop == "C15" else 6,
                                   groups=rng.sample(range(12), rng.randint(1, 4)))
-        elif r < 0.8 + 0.03:
+        elif r < 0.70:
             # a match on which the production *declines* (four digits that are no military
             # time, "half" of a unit other than hour/day) next to one of the same pattern on
             # which it succeeds, in both orders
@@ -584,7 +584,7 @@ def _texts(rng, n, prop="C15"):
             t = "%s %s" % ((a, b) if rng.random() < 0.6 else (b, a))
             if rng.random() < 0.3:
                 t = rng.choice(["tomorrow", "at", "friday"]) + " " + t
-        elif r < 0.8 + 0.045:
+        elif r < 0.73:
             # a date interval next to a duration that agrees with it (the consistency rules
             # hand back one of their arguments)
             d1 = rng.randint(1, 20)
@@ -595,7 +595,7 @@ def _texts(rng, n, prop="C15"):
             du = "%d %s" % (nn, rng.choice(["nacht", "nights", "days", "tage"]))
             t = rng.choice(["%s %s" % (iv, du), "%s für %s" % (iv, du), "%s %s" % (du, iv),
                             "%s %s für 1 tag" % (iv, du)])
-        elif r < 0.8 + 0.052:
+        elif r < 0.76:
             # a part of day in front of a clock interval (rulePODInterval shifts the hours of
             # an interval that other partial parses still hold)
             pod = rng.choice(["in the evening", "tonight", "abends", "nachmittags", "afternoon",
@@ -605,7 +605,7 @@ def _texts(rng, n, prop="C15"):
                              "nach %d", "before %d"])
             iv = iv % ((a, b) if iv.count("%d") == 2 else (a,))
             t = "%s %s" % (pod, iv)
-        elif r < 0.8 + 0.06:
+        elif r < 0.80:
             # the same joiner / absorber word leading the text and recurring between two
             # values (a bullet "- 10.5. - 12.5.", "to 5 to 6"): the first occurrence of a
             # pattern id is not the one a rule needs
@@ -615,7 +615,7 @@ def _texts(rng, n, prop="C15"):
             if rng.random() < 0.3:
                 t = "%s %s %s %s %s" % (j, rng.choice(workload.DOWS), rng.choice(v), j,
                                         rng.choice(v))
-        elif r < 0.88 + 0.0:
+        elif r < 0.86:
             # two different expressions of the same kind side by side (one pattern matching
             # twice in one sequence; a production may decline the first and accept the second)
             g = rng.choice([workload.CLOCKS, workload.DURS, workload.DATES, workload.DOMS,
